@@ -315,6 +315,9 @@ def run_sampled(mod, part, stats, seed, budget):
     collect()
 
 
+SHRINK_SECONDS = float(os.environ.get("VERIF_SHRINK_SECONDS", "20"))
+
+
 def shrink_bucket(mod, part, seed, budget, bucket):
     """Second, seeded run of the same part in which membership of `bucket` is the failure; Hypothesis shrinks
     it and the last failing case it executes is the minimal one."""
@@ -332,8 +335,12 @@ def shrink_bucket(mod, part, seed, budget, bucket):
     @_settings(budget, shrink=True)
     @given(strategy)
     def hunt(case):
+        if "case" in last and time.time() > last["deadline"]:
+            return  # shrink budget used up: let the shrinker run dry; the smallest failing case seen is kept
         out = guarded(check, case)
         if out.status == "violation" and out.bucket == bucket:
+            if "case" not in last:
+                last["deadline"] = time.time() + SHRINK_SECONDS
             last["case"] = case
             last["detail"] = out.detail
             raise _Hit()
@@ -361,6 +368,8 @@ def run_shard(args):
     try:
         for part in mod.parts(tier):
             check = part.check or mod.check
+            if part.kind == "fuzz":
+                continue
             if part.kind == "exhaustive":
                 if shard == 0:
                     stats.exhaustive_parts.append(part.name)
@@ -384,6 +393,88 @@ def run_shard(args):
     except Exception as e:  # an error in generator code
         return {"error": "".join(traceback.format_exception(type(e), e, e.__traceback__))}
     return {"stats": stats, "wall": time.time() - t0}
+
+
+def run_fuzz_part(mod, part, seed, total):
+    """Coverage-guided campaign: N atheris worker processes (fresh corpus directory each; even workers start from
+    the committed seed corpus, odd workers from an empty one), oracle inside the target.  Results are merged into
+    `total`; returns a dict for the evidence file."""
+    import shutil
+    import subprocess
+
+    cfg = part.source
+    target = os.path.join(VERIF_DIR, "harness", "fuzz", "target.py")
+    deps = os.path.join(VERIF_DIR, ".deps", "atheris")
+    if not os.path.isdir(deps):
+        return {"skipped": "atheris is not installed in /verif/.deps (run MANIFEST.setup_cmd)"}
+    work = os.path.join(OUT_DIR, ".work", "%s-fuzz-%d" % (mod.PROPERTY, os.getpid()))
+    shutil.rmtree(work, ignore_errors=True)
+    os.makedirs(work)
+    procs = []
+    nworkers = cfg.get("workers", 16)
+    try:
+        for w in range(nworkers):
+            cdir = os.path.join(work, "corpus%d" % w)
+            os.makedirs(cdir)
+            if w % 2 == 0 and cfg.get("corpus"):
+                src = os.path.join(VERIF_DIR, cfg["corpus"])
+                for name in os.listdir(src):
+                    shutil.copy(os.path.join(src, name), cdir)
+            out = os.path.join(work, "result%d.json" % w)
+            cmd = ["/venv/bin/python", target, mod.PROPERTY, out, cdir, "-runs=%d" % cfg["runs"],
+                   "-seed=%d" % (derive_seed(seed, mod.PROPERTY, part.name, w) % (2 ** 31 - 1) + 1),
+                   "-max_len=%d" % cfg.get("max_len", 256), "-timeout=60", "-rss_limit_mb=4096"]
+            if cfg.get("dict"):
+                cmd.append("-dict=%s" % os.path.join(VERIF_DIR, cfg["dict"]))
+            env = dict(os.environ, PYTHONHASHSEED="0")
+            procs.append((w, out, subprocess.Popen(cmd, stdout=subprocess.DEVNULL, stderr=open(os.path.join(work, "log%d" % w), "w"), env=env, cwd=VERIF_DIR)))
+        execs = 0
+        info = {"workers": nworkers, "runs_per_worker": cfg["runs"], "executions": 0, "crashed_workers": 0, "labels": {}}
+        for w, out, p in procs:
+            try:
+                p.wait(timeout=cfg.get("timeout", 1800))
+            except subprocess.TimeoutExpired:
+                p.kill()
+                info["timed_out"] = info.get("timed_out", 0) + 1
+            try:
+                with open(out) as f:
+                    res = json.load(f)
+            except Exception:
+                info["crashed_workers"] += 1
+                continue
+            if p.returncode not in (0, None) and not res.get("final"):
+                # libFuzzer stopped on something the target did not classify (timeout, OOM, interpreter crash)
+                info["crashed_workers"] += 1
+                tail = open(os.path.join(work, "log%d" % w)).read()[-600:]
+                total.buckets.setdefault("fuzz-worker-stopped", {"count": 0, "first": {"log": tail}, "smallest": {"log": tail}, "detail": tail[-300:], "part": part.name})["count"] += 1
+            info["executions"] += res["n"]
+            total.evaluations += res["n"]
+            total.parts.setdefault(part.name, Counter())["evaluations"] += res["n"]
+            total.parts[part.name]["nontrivial_not_deduplicated"] += res["nontrivial"]
+            for k, v in res["status"].items():
+                total.status[k] += v
+            for k, v in res["labels"].items():
+                info["labels"][k] = info["labels"].get(k, 0) + v
+            for k, v in res["known"].items():
+                total.known[k] += v
+                total.known_witness.setdefault(k, {"part": part.name, "case": {"note": "seen by the fuzz target"}, "detail": None})
+            for bucket, b in res["buckets"].items():
+                mine = total.buckets.get(bucket)
+                if mine is None:
+                    total.buckets[bucket] = {"count": b["count"], "first": b["case"], "smallest": b["case"], "detail": b["detail"], "part": part.name}
+                else:
+                    mine["count"] += b["count"]
+                    if case_size(b["case"]) < case_size(mine["smallest"]):
+                        mine["smallest"] = b["case"]
+                        mine["detail"] = b["detail"]
+            if w == 0:
+                info["samples"] = res["samples"][:4]
+        return info
+    finally:
+        for w, out, p in procs:
+            if p.poll() is None:
+                p.kill()
+        shutil.rmtree(work, ignore_errors=True)
 
 
 # ----------------------------------------------------------------------------------------------------------
@@ -492,6 +583,11 @@ def main(modname, tier, seed, replay=None, nshards=None):
             return 2
         total.merge(r["stats"])
 
+    fuzz_info = {}
+    for part in mod.parts(tier):
+        if part.kind == "fuzz":
+            fuzz_info[part.name] = run_fuzz_part(mod, part, seed, total)
+
     # 3. verdicts
     rc = 0
     lines = []
@@ -530,7 +626,7 @@ def main(modname, tier, seed, replay=None, nshards=None):
     for lab in getattr(mod, "MANDATORY_LABELS", {}).get(tier, []):
         if total.labels.get(lab, 0) == 0:
             missing.append(lab)
-    if missing:
+    if missing and not violations:
         print("HARNESS-ERROR property=%s generator produced no case of class(es): %s" % (prop, ", ".join(missing)))
         return 2
 
@@ -554,6 +650,7 @@ def main(modname, tier, seed, replay=None, nshards=None):
             "known_findings_seen": dict(total.known),
             "violation_buckets": {k: v["count"] for k, v in total.buckets.items()},
             "shards": nshards,
+            "fuzz": fuzz_info,
             "tolerances": getattr(mod, "TOLERANCES", {}),
             "numpy_importable": False,
             "library_file": os.path.abspath(lib.__file__),
